@@ -90,7 +90,7 @@ Section LintProofs.
 Context {K : Type} (keqb : K -> K -> bool).
 Hypothesis keqb_eq : forall a b, keqb a b = true <-> a = b.
 Context {Msg : Type}.
-Variable equals : @entity K -> @entity K -> bool.
+Variable equals : @entity K -> @entity K -> result bool.
 
 Notation entity := (@entity K).
 Notation finding := (@finding K Msg).
@@ -226,8 +226,11 @@ Definition dup_part (e : entity) (dups : list finding) : Prop :=
 
 Definition changed_part (e : entity) (chg : list finding) : Prop :=
   match ref_entity ref (e_key e) with
-  | Some r => if equals e r then chg = []
-              else exists p, e_position e 0 = Ok p /\ chg = [changed_finding e p]
+  | Some r => match equals e r with
+              | Ok true => chg = []
+              | Ok false => exists p, e_position e 0 = Ok p /\ chg = [changed_finding e p]
+              | Raise _ => False
+              end
   | None => chg = []
   end.
 
@@ -242,7 +245,7 @@ Proof.
     destruct ref as [rl|]; cbn [ref_entity].
     + rewrite contains_last, kt_getitem_last by exact keqb_eq.
       destruct (last_with keqb e_key (e_key e) rl) as [r|]; cbn.
-      * destruct (equals e r); intros H; inversion H; subst.
+      * destruct (equals e r) as [[|]|t]; cbn; [| |discriminate]; intros H; inversion H; subst.
         -- exists [dup_finding e p], []. rewrite app_nil_r. eauto 10.
         -- exists [dup_finding e p], [changed_finding e p]. eauto 10.
       * intros H; inversion H; subst. exists [dup_finding e p], []. eauto 10.
@@ -250,7 +253,7 @@ Proof.
   - cbn. destruct ref as [rl|]; cbn [ref_entity].
     + rewrite contains_last, kt_getitem_last by exact keqb_eq.
       destruct (last_with keqb e_key (e_key e) rl) as [r|]; cbn.
-      * destruct (equals e r).
+      * destruct (equals e r) as [[|]|t]; cbn; [| |discriminate].
         -- intros H; inversion H; subst. exists [], []. auto.
         -- destruct (e_position e 0) as [p|t]; cbn; [|discriminate].
            intros H; inversion H; subst. exists [], [changed_finding e p]. eauto 10.
@@ -308,9 +311,10 @@ Lemma changed_part_filters e chg : changed_part e chg ->
   filter is_junk chg = [].
 Proof.
   unfold changed_part. destruct (ref_entity ref (e_key e)) as [r|].
-  - destruct (equals e r).
+  - destruct (equals e r) as [[|]|t].
     + intros ->. auto.
     + intros (p & _ & ->). cbn. auto.
+    + intros [].
   - intros ->. auto.
 Qed.
 
@@ -332,24 +336,25 @@ Qed.
 (* the reference lookup never raises: with positions that resolve the entity lints *)
 Lemma lint_entity_total e :
   (forall off, exists p, e_position e off = Ok p) ->
+  (forall r, ref_entity ref (e_key e) = Some r -> exists b, equals e r = Ok b) ->
   (forall r, In r (check_results chk e) ->
              forall v, c_pos r = ValuePos v -> exists p, e_value_position e v = Ok p) ->
   exists fs, lint_entity li e = Ok fs.
 Proof.
-  intros Hp Hv. unfold Lint.lint_entity, handle_junk.
+  intros Hp He Hv. unfold Lint.lint_entity, handle_junk.
   destruct (Hp 0) as [p0 E0]. destruct (Hp (-1)) as [p1 E1].
   destruct (e_junk e); [rewrite E0, E1; cbn; eauto|]. cbn.
   assert (exists a, lint_full_entity keqb equals li e = Ok a) as [a ->].
   { unfold lint_full_entity. rewrite E0. subst li. cbn [reference new_linter].
     destruct (1 <? cget keqb (e_key e) _)%nat; cbn.
-    - destruct ref as [rl|]; [|eauto].
+    - destruct ref as [rl|]; [|eauto]. cbn [ref_entity] in He.
       rewrite contains_last, kt_getitem_last by exact keqb_eq.
       destruct (last_with keqb e_key (e_key e) rl) as [r|]; cbn; [|eauto].
-      destruct (equals e r); eauto.
-    - destruct ref as [rl|]; [|eauto].
+      destruct (He r eq_refl) as [b ->]. cbn. destruct b; eauto.
+    - destruct ref as [rl|]; [|eauto]. cbn [ref_entity] in He.
       rewrite contains_last, kt_getitem_last by exact keqb_eq.
       destruct (last_with keqb e_key (e_key e) rl) as [r|]; cbn; [|eauto].
-      destruct (equals e r); eauto. }
+      destruct (He r eq_refl) as [b ->]. cbn. destruct b; eauto. }
   cbn.
   assert (exists b, lint_value li e = Ok b) as [b ->]; [|cbn; eauto].
   unfold lint_value. subst li. cbn [the_checker new_linter].
@@ -360,6 +365,72 @@ Proof.
     - destruct (Hp off) as [p ->]. cbn. eauto.
     - destruct (Hv r (or_introl eq_refl) v Er) as [p ->]. cbn. eauto. }
   cbn. destruct IH as [fs ->]; [intros r' Hr'; apply Hv; right; exact Hr'|]. cbn. eauto.
+Qed.
+
+(* ---- forward computation of one entity's results ---------------------------- *)
+Lemma lint_entity_junk_exact e p q :
+  e_junk e = true -> e_position e 0 = Ok p -> e_position e (-1) = Ok q ->
+  lint_entity li e = Ok [junk_finding e p q].
+Proof.
+  intros Hj Hp Hq. unfold Lint.lint_entity, handle_junk. rewrite Hj, Hp, Hq. reflexivity.
+Qed.
+
+(* what the reference says about a full entity: nothing (no entity with the key, or an
+   equal one) or "changed" *)
+Definition ref_verdict (e : entity) : result bool :=
+  match ref_entity ref (e_key e) with
+  | Some r => match equals e r with Ok b => Ok (negb b) | Raise t => Raise t end
+  | None => Ok false
+  end.
+
+Lemma lint_entity_exact e p changed :
+  e_junk e = false -> e_position e 0 = Ok p -> ref_verdict e = Ok changed ->
+  lint_entity li e =
+  match mapM (resolve e) (check_results chk e) with
+  | Ok cks => Ok ((if (1 <? kcount (e_key e) cur)%nat then [dup_finding e p] else []) ++
+                  (if changed then [changed_finding e p] else []) ++ cks)
+  | Raise t => Raise t
+  end.
+Proof.
+  intros Hj Hp Hv. unfold Lint.lint_entity, handle_junk. rewrite Hj. cbn.
+  assert (Hf : lint_full_entity keqb equals li e =
+               Ok ((if (1 <? kcount (e_key e) cur)%nat then [dup_finding e p] else []) ++
+                   (if changed then [changed_finding e p] else []))).
+  { unfold lint_full_entity. subst li. rewrite key_count_spec, Hp. cbn [reference new_linter].
+    unfold ref_verdict in Hv.
+    destruct (1 <? kcount (e_key e) cur)%nat; cbn.
+    - destruct ref as [rl|]; cbn [ref_entity] in Hv.
+      + rewrite contains_last, kt_getitem_last by exact keqb_eq.
+        destruct (last_with keqb e_key (e_key e) rl) as [r|]; cbn.
+        * destruct (equals e r) as [b|t]; [|discriminate]. inversion Hv; subst. cbn.
+          destruct b; reflexivity.
+        * inversion Hv; subst. reflexivity.
+      + inversion Hv; subst. reflexivity.
+    - destruct ref as [rl|]; cbn [ref_entity] in Hv.
+      + rewrite contains_last, kt_getitem_last by exact keqb_eq.
+        destruct (last_with keqb e_key (e_key e) rl) as [r|]; cbn.
+        * destruct (equals e r) as [b|t]; [|discriminate]. inversion Hv; subst. cbn.
+          destruct b; reflexivity.
+        * inversion Hv; subst. reflexivity.
+      + inversion Hv; subst. reflexivity. }
+  rewrite Hf. cbn.
+  assert (Hl : lint_value li e = mapM (resolve e) (check_results chk e)).
+  { unfold lint_value, check_results. subst li. cbn [the_checker new_linter].
+    destruct chk; reflexivity. }
+  rewrite Hl. destruct (mapM (resolve e) (check_results chk e)); cbn; [|reflexivity].
+  rewrite app_assoc. reflexivity.
+Qed.
+
+Lemma lint_entities_cons e l :
+  lint_entities li (e :: l) =
+  match lint_entity li e with
+  | Ok f => match lint_entities li l with Ok fs => Ok (f ++ fs) | Raise t => Raise t end
+  | Raise t => Raise t
+  end.
+Proof.
+  unfold Lint.lint_entities. cbn [mapM].
+  destruct (Lint.lint_entity keqb equals li e) as [f|t]; cbn; [|reflexivity].
+  destruct (mapM (Lint.lint_entity keqb equals li) l) as [fss|t]; cbn; reflexivity.
 Qed.
 
 (* ---- the whole file ------------------------------------------------------ *)
@@ -396,7 +467,10 @@ Qed.
 Definition dup_sel (e : entity) : bool := negb (e_junk e) && (1 <? kcount (e_key e) cur)%nat.
 Definition changed_sel (e : entity) : bool :=
   negb (e_junk e) &&
-  match ref_entity ref (e_key e) with Some r => negb (equals e r) | None => false end.
+  match ref_entity ref (e_key e) with
+  | Some r => match equals e r with Ok false => true | _ => false end
+  | None => false
+  end.
 
 Lemma file_duplicates l fs :
   lint_entities li l = Ok fs ->
@@ -421,7 +495,7 @@ Proof.
   - destruct (lint_entity_junk e f Hj He) as (p & q & _ & _ & ->). reflexivity.
   - destruct (lint_entity_filters e f Hj He) as (_ & Hc & _). unfold changed_part in Hc.
     destruct (ref_entity ref (e_key e)) as [r|]; [|exact Hc].
-    destruct (equals e r); cbn; [exact Hc|].
+    destruct (equals e r) as [[|]|t]; cbn; [exact Hc| |destruct Hc].
     destruct Hc as (p & Hp & ->). eauto.
 Qed.
 
@@ -440,7 +514,7 @@ Qed.
 (* clean file *)
 Lemma lint_entity_clean e :
   e_junk e = false -> (kcount (e_key e) cur <= 1)%nat -> check_results chk e = [] ->
-  (forall r, ref_entity ref (e_key e) = Some r -> equals e r = true) ->
+  (forall r, ref_entity ref (e_key e) = Some r -> equals e r = Ok true) ->
   lint_entity li e = Ok [].
 Proof.
   intros Hj Hc Hk Hr. unfold Lint.lint_entity, handle_junk. rewrite Hj. cbn.
@@ -461,7 +535,7 @@ Lemma lint_entities_clean :
   NoDup (map e_key cur) ->
   (forall e, In e cur -> e_junk e = false) ->
   (forall e, In e cur -> check_results chk e = []) ->
-  (forall e r, In e cur -> ref_entity ref (e_key e) = Some r -> equals e r = true) ->
+  (forall e r, In e cur -> ref_entity ref (e_key e) = Some r -> equals e r = Ok true) ->
   lint_entities li cur = Ok [].
 Proof.
   intros Hn Hj Hk Hr. unfold Lint.lint_entities.
@@ -489,7 +563,7 @@ Qed.
 (* "the key is in the reference and the last reference entity with it differs" *)
 Definition differs_from_reference (ref : option (list entity)) (e : entity) : Prop :=
   exists rl pre r post, ref = Some rl /\ rl = pre ++ r :: post /\ e_key r = e_key e /\
-                        Forall (fun e' => e_key e' <> e_key e) post /\ equals e r = false.
+                        Forall (fun e' => e_key e' <> e_key e) post /\ equals e r = Ok false.
 
 Lemma lint_entity_changed cur chk ref e fs :
   e_junk e = false -> lint_entity (new_linter cur chk ref) e = Ok fs ->
@@ -499,7 +573,7 @@ Lemma lint_entity_changed cur chk ref e fs :
 Proof.
   intros Hj H. destruct (lint_entity_filters cur chk ref e fs Hj H) as (_ & Hc & _).
   unfold changed_part in Hc. destruct (ref_entity ref (e_key e)) as [r|] eqn:Er.
-  - destruct (equals e r) eqn:Eq.
+  - destruct (equals e r) as [[|]|t] eqn:Eq.
     + split; [|intros _; exact Hc].
       intros (rl & pre & r' & post & H1 & H2 & H3 & H4 & H5). exfalso.
       assert (ref_entity ref (e_key e) = Some r') as Hr'
@@ -508,6 +582,7 @@ Proof.
     + split; [intros _; exact Hc|]. intros Hn. exfalso. apply Hn.
       apply ref_entity_spec in Er. destruct Er as (rl & pre & post & H1 & H2 & H3 & H4).
       exists rl, pre, r, post. auto.
+    + destruct Hc.
   - split; [|intros _; exact Hc].
     intros (rl & pre & r' & post & H1 & H2 & H3 & H4 & H5). exfalso.
     assert (ref_entity ref (e_key e) = Some r') as Hr'
@@ -515,17 +590,21 @@ Proof.
     rewrite Er in Hr'. discriminate.
 Qed.
 
+(* "every entity equals the last reference entity with its key" *)
+Definition equal_to_reference (ref : option (list entity)) (e : entity) : Prop :=
+  forall rl pre r post, ref = Some rl -> rl = pre ++ r :: post -> e_key r = e_key e ->
+                        Forall (fun e' => e_key e' <> e_key e) post -> equals e r = Ok true.
+
 Lemma lint_entities_clean' cur chk ref :
   NoDup (map e_key cur) ->
   (forall e, In e cur -> e_junk e = false) ->
   (forall e, In e cur -> check_results chk e = []) ->
-  (forall e, In e cur -> ~ differs_from_reference ref e) ->
+  (forall e, In e cur -> equal_to_reference ref e) ->
   lint_entities (new_linter cur chk ref) cur = Ok [].
 Proof.
   intros Hn Hj Hk Hr. apply lint_entities_clean; auto.
-  intros e r He Er. destruct (equals e r) eqn:Eq; [reflexivity|]. exfalso.
-  apply (Hr e He). apply ref_entity_spec in Er.
-  destruct Er as (rl & pre & post & H1 & H2 & H3 & H4). exists rl, pre, r, post. auto.
+  intros e r He Er. apply ref_entity_spec in Er.
+  destruct Er as (rl & pre & post & H1 & H2 & H3 & H4). exact (Hr e He rl pre r post H1 H2 H3 H4).
 Qed.
 
 (* ---- lint_file / lint ---------------------------------------------------- *)
@@ -603,7 +682,7 @@ Lemma lint_file_clean p ref extra :
   (forall e, In e (parse p p) -> e_junk e = false) ->
   (forall e, In e (parse p p) -> check_results (file_checker p extra) e = []) ->
   (forall e r, In e (parse p p) ->
-               ref_entity (file_reference p ref) (e_key e) = Some r -> equals e r = true) ->
+               ref_entity (file_reference p ref) (e_key e) = Some r -> equals e r = Ok true) ->
   lint_file p ref extra = Ok [].
 Proof.
   intros H Hn Hj Hk Hr. rewrite lint_file_unfold by exact H.
@@ -615,7 +694,7 @@ Lemma lint_file_clean' p ref extra :
   NoDup (map e_key (parse p p)) ->
   (forall e, In e (parse p p) -> e_junk e = false) ->
   (forall e, In e (parse p p) -> check_results (file_checker p extra) e = []) ->
-  (forall e, In e (parse p p) -> ~ differs_from_reference (file_reference p ref) e) ->
+  (forall e, In e (parse p p) -> equal_to_reference (file_reference p ref) e) ->
   lint_file p ref extra = Ok [].
 Proof.
   intros H Hn Hj Hk Hr. rewrite lint_file_unfold by exact H.
